@@ -1,24 +1,27 @@
 #!/usr/bin/env python3
 """mkmut.py NAME FILE OLD NEW [FILE OLD NEW ...] -> /verif/mutants/NAME.diff
 
-Builds a patch against /repo by exact string replacement (OLD must occur exactly
-once in FILE), without leaving /repo modified."""
-import subprocess, sys, os
+Builds a patch against /repo HEAD by exact string replacement (OLD must occur exactly
+once in FILE) in a scratch worktree; /repo itself is never modified."""
+import subprocess, sys, os, shutil
 name = sys.argv[1]
 triples = sys.argv[2:]
 assert len(triples) % 3 == 0 and triples
-assert subprocess.run(["git", "-C", "/repo", "status", "--porcelain", "--untracked-files=no"],
-                      capture_output=True, text=True).stdout.strip() == "", "repo dirty"
+wt = "/dev/shm/mkmut-%d" % os.getpid()
+subprocess.run(["git", "-C", "/repo", "worktree", "add", "--detach", wt, "HEAD"], check=True,
+               capture_output=True)
 try:
     for i in range(0, len(triples), 3):
         f, old, new = triples[i:i + 3]
-        p = os.path.join("/repo", f)
+        p = os.path.join(wt, f)
         s = open(p).read()
         assert s.count(old) == 1, "OLD occurs %d times in %s" % (s.count(old), f)
         open(p, "w").write(s.replace(old, new))
-    d = subprocess.run(["git", "-C", "/repo", "diff"], capture_output=True, text=True).stdout
+    d = subprocess.run(["git", "-C", wt, "diff"], capture_output=True, text=True).stdout
     assert d.strip()
     open("/verif/mutants/%s.diff" % name, "w").write(d)
     print("wrote /verif/mutants/%s.diff" % name)
 finally:
-    subprocess.run(["git", "-C", "/repo", "checkout", "--", "."], check=True)
+    subprocess.run(["git", "-C", "/repo", "worktree", "remove", "--force", wt], capture_output=True)
+    shutil.rmtree(wt, ignore_errors=True)
+    subprocess.run(["git", "-C", "/repo", "worktree", "prune"], capture_output=True)
